@@ -282,7 +282,8 @@ mod verif_kani {
         let mut pm = PeerMap::Small(any_small::<Ipv4AddrBytes>());
         let mut config = Config::default();
         config.statistics.peer_clients = true;
-        let (sender, _receiver) = crossbeam_channel::unbounded::<StatisticsMessage>();
+        let (sender, receiver) = crossbeam_channel::bounded::<StatisticsMessage>(1);
+        std::mem::forget(receiver);
         let mut rng = <SmallRng as rand::SeedableRng>::seed_from_u64(1);
         let request = any_request();
         let ip = Ipv4AddrBytes(kani::any());
@@ -314,5 +315,6 @@ mod verif_kani {
             }
         }
         kani::cover!(stored_id.is_some());
+        std::mem::forget(sender);
     }
 }
